@@ -307,20 +307,20 @@ def hash_rule(ck, facts):
 SHRINKERS = r"Vec::<T, A>::(dedup|dedup_by|dedup_by_key|retain|retain_mut|remove|swap_remove|truncate|drain|pop|clear|split_off)$"
 
 
-def no_merge_rule(ck, facts):
+def no_merge_rule(ck, facts, crate="sophia_isomorphism", ty_re=r"IsoTerm"):
     """R7.7: the prepared quads (wrapped in IsoTerm, whose equality identifies *all* blank nodes) are never merged, removed
     or de-duplicated: `q1 == q2` on IsoTerm quads does not mean "the same quad", so any dedup/retain/remove on those vectors
     can drop distinct quads (e.g. the same ground triple in two blank-named graphs) and makes the answer order-dependent."""
     n = 0
     bad = []
     for f in facts.fns.values():
-        if f.crate != "sophia_isomorphism":
+        if f.crate != crate:
             continue
         n += 1
         for bi, t in f.calls():
             if call_name_matches(t, SHRINKERS) and t["args"] and t["args"][0][0] != "k":
                 ty = f.locals[t["args"][0][1][0]]["ty"]
-                if "IsoTerm" in ty:
+                if re.search(ty_re, ty):
                     root = f if f.kind != "Closure" else facts.fns.get(f.root, f)
                     bad.append((root.name, t["f"]["name"].split("::")[-1], "%s:%s" % (t["file"], t["line"])))
     for name, op, loc in bad:
@@ -334,6 +334,11 @@ def run(ck, facts, tier):
     facts.require_crates(["sophia_isomorphism"])
     iso_term_rule(ck, facts)
     hash_rule(ck, facts)
+    import core
+    pr = core.Probe()
+    no_merge_rule(pr, core.fixture_facts(), crate="vfix", ty_re=r"BlindTerm")
+    ck.control("R7.7", "pos_dedup_blind (dedup_by on a vector with a coarse equality)", pr.fired(r"pos_dedup_blind#dedup_by$"))
+    ck.control("R7.7", "neg_sort_blind", pr.fired(r"neg_sort_blind"), expect=False)
     no_merge_rule(ck, facts)
     eq_gn_rule(ck, facts)
     driver_rule(ck, facts, "dataset::isomorphic_datasets", None)
